@@ -17,19 +17,21 @@ import (
 	"context"
 	"errors"
 	"fmt"
-	"io"
 	"sort"
 	"strings"
+	"sync"
 	"testing"
 	"time"
 
+	"github.com/go-logr/logr"
 	corev1 "k8s.io/api/core/v1"
 	apierrors "k8s.io/apimachinery/pkg/api/errors"
 	metav1 "k8s.io/apimachinery/pkg/apis/meta/v1"
 	"k8s.io/apimachinery/pkg/runtime"
 	"k8s.io/apimachinery/pkg/runtime/schema"
+	"k8s.io/apimachinery/pkg/runtime/serializer"
 	"k8s.io/apimachinery/pkg/types"
-	clientgoscheme "k8s.io/client-go/kubernetes/scheme"
+	clientgotesting "k8s.io/client-go/testing"
 	"k8s.io/client-go/tools/events"
 	"k8s.io/klog/v2"
 	"k8s.io/utils/clock"
@@ -49,8 +51,7 @@ import (
 
 func init() {
 	// the controller logs every failed write with klog.Errorf: keep the workers quiet
-	klog.LogToStderr(false)
-	klog.SetOutput(io.Discard)
+	klog.SetLogger(logr.Discard())
 }
 
 func TestVerifSim(t *testing.T) { sim.Main(t, &mgEngine{}) }
@@ -63,7 +64,8 @@ const (
 	mgRF = string(sev1alpha1.PodMigrationJobModeReservationFirst)
 	mgED = string(sev1alpha1.PodMigrationJobModeEvictionDirectly)
 
-	mgFErrBefore   = "err-before"     // the call fails, nothing applied
+	mgFReadErr     = "read-err"       // a Get / List fails (informer not synced, API reader timeout)
+	mgFErrBefore   = "err-before"     // the write fails, nothing applied
 	mgFErrAfter    = "err-after"      // lost acknowledgement: the write is applied, the caller sees an error
 	mgFConflict    = "conflict"       // 409, nothing applied
 	mgFStale       = "stale-read"     // Get served from the informer cache at an older version
@@ -73,7 +75,7 @@ const (
 	mgSettleN = 15 // bound on reconciles per job after the last fault
 )
 
-var mgAllFaults = []string{mgFErrBefore, mgFErrAfter, mgFConflict, mgFStale, mgFEvictRefuse, mgFEvictLost}
+var mgAllFaults = []string{mgFReadErr, mgFErrBefore, mgFErrAfter, mgFConflict, mgFStale, mgFEvictRefuse, mgFEvictLost}
 
 // ---------------------------------------------------------------- plan
 
@@ -308,11 +310,23 @@ type mgSim struct {
 	staleRun bool     // a stale read was served in the current reconcile
 }
 
-func mgScheme() *runtime.Scheme {
-	s := runtime.NewScheme()
-	_ = clientgoscheme.AddToScheme(s)
-	_ = sev1alpha1.AddToScheme(s)
-	return s
+// The scheme and its decoder are immutable tables, built once per process; everything stateful (object tracker, clients,
+// reconciler) is created inside Execute.
+var (
+	mgSchemeOnce sync.Once
+	mgTheScheme  *runtime.Scheme
+	mgDecoder    runtime.Decoder
+)
+
+func mgScheme() (*runtime.Scheme, runtime.Decoder) {
+	mgSchemeOnce.Do(func() {
+		s := runtime.NewScheme()
+		_ = corev1.AddToScheme(s)
+		_ = sev1alpha1.AddToScheme(s)
+		mgTheScheme = s
+		mgDecoder = serializer.NewCodecFactory(s).UniversalDecoder()
+	})
+	return mgTheScheme, mgDecoder
 }
 
 type mgMgr struct {
@@ -379,25 +393,53 @@ func (s *mgSim) nodeName(i int) string {
 
 // ---- direct (never faulted) store access used by the environment stubs and the oracles
 
-func (s *mgSim) getJob(name string) *sev1alpha1.PodMigrationJob {
-	o := &sev1alpha1.PodMigrationJob{}
-	if name == "" || s.base.Get(s.ctx, types.NamespacedName{Name: name}, o) != nil {
+// Every write to the store (by the controller's client or by an environment stub) is followed by record(), hence the newest
+// history entry is the store's current object; the direct readers copy it (cheaper than the fake client's JSON round trip).
+func (s *mgSim) latest(kind, name string) client.Object {
+	h := s.hist[kind+"/"+name]
+	if len(h) == 0 {
 		return nil
 	}
-	return o
+	return h[len(h)-1].obj
+}
+
+func (s *mgSim) getJob(name string) *sev1alpha1.PodMigrationJob {
+	if o, ok := s.latest("job", name).(*sev1alpha1.PodMigrationJob); ok && o != nil {
+		return o.DeepCopy()
+	}
+	return nil
 }
 
 func (s *mgSim) getResv(name string) *sev1alpha1.Reservation {
-	o := &sev1alpha1.Reservation{}
-	if name == "" || s.base.Get(s.ctx, types.NamespacedName{Name: name}, o) != nil {
-		return nil
+	if o, ok := s.latest("resv", name).(*sev1alpha1.Reservation); ok && o != nil {
+		return o.DeepCopy()
 	}
-	return o
+	return nil
 }
 
 func (s *mgSim) getPod(name string) *corev1.Pod {
-	o := &corev1.Pod{}
-	if name == "" || s.base.Get(s.ctx, types.NamespacedName{Namespace: "default", Name: name}, o) != nil {
+	if o, ok := s.latest("pod", name).(*corev1.Pod); ok && o != nil {
+		return o.DeepCopy()
+	}
+	return nil
+}
+
+func (s *mgSim) readStore(kind, name string) client.Object {
+	var o client.Object
+	key := types.NamespacedName{Name: name}
+	switch kind {
+	case "job":
+		o = &sev1alpha1.PodMigrationJob{}
+	case "resv":
+		o = &sev1alpha1.Reservation{}
+	default:
+		o = &corev1.Pod{}
+		key.Namespace = "default"
+	}
+	if err := s.base.Get(s.ctx, key, o); err != nil {
+		if !apierrors.IsNotFound(err) {
+			s.r.HarnessFail("store read %s/%s: %v", kind, name, err)
+		}
 		return nil
 	}
 	return o
@@ -416,21 +458,7 @@ func (s *mgSim) record(kind, name string) {
 	if len(h) == 0 {
 		h = append(h, mgVer{})
 	}
-	var cur client.Object
-	switch kind {
-	case "job":
-		if o := s.getJob(name); o != nil {
-			cur = o
-		}
-	case "resv":
-		if o := s.getResv(name); o != nil {
-			cur = o
-		}
-	case "pod":
-		if o := s.getPod(name); o != nil {
-			cur = o
-		}
-	}
+	cur := s.readStore(kind, name)
 	last := h[len(h)-1]
 	switch {
 	case cur == nil && last.obj == nil:
@@ -582,7 +610,7 @@ func (s *mgSim) ctlGet(c client.Reader, cached bool, key client.ObjectKey, obj c
 	}
 	k := kind + "/" + key.Name
 	h := s.hist[k]
-	kinds := []string{mgFErrBefore}
+	kinds := []string{mgFReadErr}
 	lo := len(h) - 1
 	if cached && len(h) > 0 {
 		lo = s.servable(k)
@@ -595,8 +623,14 @@ func (s *mgSim) ctlGet(c client.Reader, cached bool, key client.ObjectKey, obj c
 		site = "apiget:" + kind
 	}
 	switch s.fault(site, kinds...) {
-	case mgFErrBefore:
+	case mgFReadErr:
 		s.r.Probe("fault:" + site + ":err")
+		if kind == "pod" && s.cur != nil {
+			// history class of a recorded defect: the pod cannot be read in a reconcile in which the job's reservation sits on the pod's node
+			if rv, pod := s.reservationOf(s.cur), s.getPod(key.Name); rv != nil && pod != nil && rv.Status.NodeName != "" && rv.Status.NodeName == pod.Spec.NodeName {
+				s.r.Tag("pod-read-error-while-reservation-on-pod-node")
+			}
+		}
 		return errMgUnavailable
 	case mgFStale:
 		i := lo + s.r.Choose(len(h)-1-lo)
@@ -705,7 +739,7 @@ func (s *mgSim) funcs() interceptor.Funcs {
 			return s.ctlGet(c, true, key, obj, opts...)
 		},
 		List: func(ctx context.Context, c client.WithWatch, list client.ObjectList, opts ...client.ListOption) error {
-			if s.fault("list", mgFErrBefore) != "" {
+			if s.fault("list", mgFReadErr) != "" {
 				return errMgUnavailable
 			}
 			return c.List(ctx, list, opts...)
@@ -864,6 +898,9 @@ func (e mgEvictor) Evict(ctx context.Context, job *sev1alpha1.PodMigrationJob, p
 	}
 	r.OracleEval()
 	r.Probe("evict-call")
+	if job.Spec.PodRef != nil && job.Spec.PodRef.UID != "" && job.Spec.PodRef.UID != pod.UID {
+		r.Probe("evict-of-pod-with-other-uid-than-podref") // outside the statement: counted only
+	}
 	seq := r.Seq()
 	stJob := s.getJob(job.Name)
 	seenJob := stJob
@@ -1060,7 +1097,8 @@ func (mgEngine) Execute(r *sim.Run) {
 	defer func() { UUIDGenerateFn = saved }()
 	UUIDGenerateFn = func() types.UID { return s.nextUID("gen") }
 
-	s.base = fake.NewClientBuilder().WithScheme(mgScheme()).
+	scheme, decoder := mgScheme()
+	s.base = fake.NewClientBuilder().WithScheme(scheme).WithObjectTracker(clientgotesting.NewObjectTracker(scheme, decoder)).
 		WithStatusSubresource(&sev1alpha1.PodMigrationJob{}, &sev1alpha1.Reservation{}).Build()
 	s.cl = interceptor.NewClient(s.base, s.funcs())
 	s.rec = s.newReconciler()
@@ -1220,6 +1258,30 @@ func (s *mgSim) createJob(j *mgJob) {
 	r.OpDone()
 }
 
+// tagReplacedOntoReservationNode marks the history class of a recorded defect: the target pod was replaced by a pod of the same
+// name (new UID) on the very node the job's reservation is scheduled on, after the job recorded ReservationScheduled=True (the
+// same-node check is not repeated) and without the new pod consuming the reservation.
+func (s *mgSim) tagReplacedOntoReservationNode(p *mgPod, node string) {
+	for _, j := range s.jobs {
+		if !j.created || j.deleted || j.spec.Pod != p.idx {
+			continue
+		}
+		o, _ := s.latest("job", j.name).(*sev1alpha1.PodMigrationJob)
+		if o == nil || mgTerminal(o.Status.Phase) {
+			continue
+		}
+		recorded := false
+		for _, c := range o.Status.Conditions {
+			if c.Type == sev1alpha1.PodMigrationJobConditionReservationScheduled && c.Status == sev1alpha1.PodMigrationJobConditionStatusTrue {
+				recorded = true
+			}
+		}
+		if rv := s.reservationOf(j); recorded && rv != nil && rv.Status.NodeName == node && len(rv.Status.CurrentOwners) == 0 {
+			s.r.Tag("target-pod-replaced-onto-reservation-node")
+		}
+	}
+}
+
 // reservationOf returns the live reservation of a job (nil if none).
 func (s *mgSim) reservationOf(j *mgJob) *sev1alpha1.Reservation {
 	for _, n := range s.resvNames(j, s.getJob(j.name)) {
@@ -1334,6 +1396,9 @@ func (s *mgSim) envProgress(j *mgJob, v int) bool {
 			r.Probe("env:replacement-bound-to-reservation")
 		} else {
 			r.Probe("env:replacement-placed-elsewhere")
+			if p.spec.SameName {
+				s.tagReplacedOntoReservationNode(p, node)
+			}
 		}
 		r.Event("env replacement %s on %s bound=%v", name, node, bind)
 		return true
@@ -1380,10 +1445,16 @@ func (s *mgSim) reconcile(j *mgJob) {
 	}
 	s.view = map[string]mgView{}
 	s.cur, s.lastEv, s.staleRun = j, nil, false
-	if !j.deleted && j.refLost && j.lastObj != nil && j.lastObj.Spec.TTL != nil && j.lastObj.Spec.TTL.Duration > 0 &&
-		now.Sub(j.lastObj.CreationTimestamp.Time) >= j.lastObj.Spec.TTL.Duration {
-		// history class of a recorded defect: the reservationRef never reached the store and the TTL has passed
-		r.Tag("ttl-passed-with-unpersisted-reservation-ref")
+	if !j.deleted && j.lastObj != nil && j.lastObj.Spec.TTL != nil && j.lastObj.Spec.TTL.Duration > 0 &&
+		now.Sub(j.lastObj.CreationTimestamp.Time) >= j.lastObj.Spec.TTL.Duration &&
+		(j.lastObj.Spec.ReservationOptions == nil || j.lastObj.Spec.ReservationOptions.ReservationRef == nil) {
+		for _, rn := range j.resvMade {
+			if s.latest("resv", rn) != nil {
+				// history class of a recorded defect: a Reservation was created for the job, spec.reservationRef never reached the
+				// store (lost create acknowledgement or failed job update) and the TTL has passed
+				r.Tag("ttl-passed-with-unpersisted-reservation-ref")
+			}
+		}
 	}
 	res, err := s.rec.Reconcile(s.ctx, reconcile.Request{NamespacedName: types.NamespacedName{Name: j.name}})
 	s.cur = nil
@@ -1536,6 +1607,7 @@ func (s *mgSim) apply(op mgOp) {
 		}
 		s.removePod(p)
 		s.createPod(p, node)
+		s.tagReplacedOntoReservationNode(p, node)
 		r.Event("env pod %s replaced (same name, new uid) on %s", p.name, node)
 		r.Probe("env:pod-replaced-same-name")
 		r.OpDone()
